@@ -152,14 +152,22 @@ int main(int argc, char ** argv)
     }
     printf("]");
     auto close = [](double a, double b) { double s = std::fabs(a) > std::fabs(b) ? std::fabs(a) : std::fabs(b); return a == b || std::fabs(a - b) <= 1e-6 * s + 1e-30; };
+  // momentum components are compared relative to the particle's momentum magnitude (pi is 3.1415927 in the reference)
+  auto closev = [](double a, double b, double norm) { return a == b || std::fabs(a - b) <= 1e-6 * norm + 1e-30; };
     if ((int)P.size() != n) diff = "particle count";
     run = 0;
+    std::vector<double> rt(n + 2, 0.0);
+    for (int i = 1; i <= n; i++) { run += ref_genevent.ptime[i]; rt[i] = run; }
     for (int i = 1; i <= n && diff.empty(); i++) {
-      run += ref_genevent.ptime[i];
       const auto & p = P[i - 1];
-      if ((int)p.get_code() != ref_genevent.npgeant[i]) diff = "species of particle " + std::to_string(i - 1);
-      else if (!close(p.get_px(), ref_genevent.pmoment[1][i]) || !close(p.get_py(), ref_genevent.pmoment[2][i]) || !close(p.get_pz(), ref_genevent.pmoment[3][i])) diff = "momentum of particle " + std::to_string(i - 1);
-      else if (!close(p.get_time(), run)) diff = "time of particle " + std::to_string(i - 1);
+      int ri = i, pc = (int)p.get_code();
+      if (pc != ref_genevent.npgeant[ri] && (pc == 2 || pc == 3)) {
+        // admissible: e+/e- order inside an internal pair
+        for (int d = -1; d <= 1; d += 2) { int r2 = i + d; if (r2 >= 1 && r2 <= n && ref_genevent.npgeant[r2] == pc && (int)P[r2 - 1].get_code() == ref_genevent.npgeant[i]) { ri = r2; break; } }
+      }
+      if (pc != ref_genevent.npgeant[ri]) diff = "species of particle " + std::to_string(i - 1);
+      else if (!closev(p.get_px(), ref_genevent.pmoment[1][ri], p.get_p()) || !closev(p.get_py(), ref_genevent.pmoment[2][ri], p.get_p()) || !closev(p.get_pz(), ref_genevent.pmoment[3][ri], p.get_p())) diff = "momentum of particle " + std::to_string(i - 1);
+      else if (!close(p.get_time(), rt[ri])) diff = "time of particle " + std::to_string(i - 1);
     }
     if (diff.empty() && U->rn && !close(td0, td1)) diff = "tdnuc";
     if (diff.empty() && (scripted0 != S.scripted || internal0 != S.internal)) diff = "number of deviates consumed";
